@@ -30,6 +30,7 @@ type Case struct {
 	API      string `json:"api"`       // struct | fields
 	Layout   string `json:"layout"`    // A (string last) | B (string first, untagged) | C (two strings, string in the middle and last)
 	DecodeAs string `json:"decode_as"` // concrete | iface
+	Reuse    bool   `json:"reuse"`     // decode every row into the same record variable instead of a fresh one per row
 	Recs     []Rec  `json:"recs"`
 }
 
@@ -95,6 +96,7 @@ func gen(t *rapid.T) Case {
 	c.API = rapid.SampledFrom([]string{"struct", "struct", "fields"}).Draw(t, "api")
 	c.Layout = rapid.SampledFrom([]string{"A", "B", "C"}).Draw(t, "layout")
 	c.DecodeAs = rapid.SampledFrom([]string{"concrete", "iface"}).Draw(t, "decodeas")
+	c.Reuse = rapid.Bool().Draw(t, "reuse")
 	n := rapid.IntRange(0, 8).Draw(t, "nrec")
 	if rapid.IntRange(0, 9).Draw(t, "many") == 0 {
 		n = rapid.IntRange(9, 40).Draw(t, "nrec2")
@@ -165,9 +167,14 @@ func structRT[GE any, GD any](c Case, file string, conv func(vkit.GJ) GE) ([]got
 			return nil, "NewDecoder: " + err.Error()
 		}
 		defer d.Close()
+		var shared recA[GD]
 		for {
-			var rec recA[GD]
-			if !d.DecodeRow(&rec) {
+			var fresh recA[GD]
+			rec := &fresh
+			if c.Reuse {
+				rec = &shared
+			}
+			if !d.DecodeRow(rec) {
 				break
 			}
 			g, _ := any(rec.Shape).(geom.Geom)
@@ -194,9 +201,14 @@ func structRT[GE any, GD any](c Case, file string, conv func(vkit.GJ) GE) ([]got
 			return nil, "NewDecoder: " + err.Error()
 		}
 		defer d.Close()
+		var shared recB[GD]
 		for {
-			var rec recB[GD]
-			if !d.DecodeRow(&rec) {
+			var fresh recB[GD]
+			rec := &fresh
+			if c.Reuse {
+				rec = &shared
+			}
+			if !d.DecodeRow(rec) {
 				break
 			}
 			g, _ := any(rec.G).(geom.Geom)
@@ -222,9 +234,14 @@ func structRT[GE any, GD any](c Case, file string, conv func(vkit.GJ) GE) ([]got
 			return nil, "NewDecoder: " + err.Error()
 		}
 		defer d.Close()
+		var shared recC[GD]
 		for {
-			var rec recC[GD]
-			if !d.DecodeRow(&rec) {
+			var fresh recC[GD]
+			rec := &fresh
+			if c.Reuse {
+				rec = &shared
+			}
+			if !d.DecodeRow(rec) {
 				break
 			}
 			g, _ := any(rec.Geom).(geom.Geom)
@@ -443,7 +460,7 @@ func TestProp(t *testing.T) {
 			"unclosed, *Bounds), finite coordinates from bit patterns; attributes: ints within the 10-character field (wider ones must be refused by Encode), float64 " +
 			"|v|<1e18, strings of 0-50 bytes (ASCII, inner blanks, quotes, UTF-8) without NUL and without leading/trailing blanks (not representable in DBF). Both APIs: " +
 			"struct-based with three record layouts (string last with tags, string first untagged with pointer records, two strings with mixed-case tags and names; geometry " +
-			"field decoded either as the concrete type or as geom.Geom) and field-based (NewEncoderFromFields/EncodeFields/DecodeRowFields, names matched in either case). " +
+			"field decoded either as the concrete type or as geom.Geom; rows decoded into a fresh record or into one reused record variable) and field-based (NewEncoderFromFields/EncodeFields/DecodeRowFields, names matched in either case). " +
 			"Oracle: same number and order of records, coordinates bit-identical with line strings as parts, rings in stored order with unclosed rings closed, boxes as 5-vertex " +
 			"rectangles; ints equal, strings equal, floats within 5.1e-11; Decoder.Error nil. Non-trivial = >=2 records with string attributes of different lengths, or a multi-part geometry. Distinct by case hash.",
 		Assumptions: []string{"strings with leading/trailing blanks are excluded: DBF pads with blanks and the reader trims them", "a LineString is read back into a MultiLineString or geom.Geom field, never into a LineString field"},
